@@ -19,7 +19,9 @@ GEN_NEEDS = ["t_constants", "t_codon", "t_alphabet", "t_enums", "gencode", "exte
 RULE = ("complete finite domains: every IUPAC triplet (16^3) x strict/non-strict translate, synonymous codons (both "
         "flags), stop/strict/canonical-start/start-in-table(0,1,11) predicates; every printable ASCII character x every "
         "alphabet for the complement (once and twice); 4 frames x shifts in [-30,30]; all strand singles/pairs/symbols/"
-        "ints; all pairs of biotype names; enum layouts; plus mixed-case and malformed texts. Biopython "
+        "ints; all pairs of biotype names; enum layouts; histories over the Codon API (hold every strict / extended / RNA-"
+        "spelled codon object, construct every other spelling of the same or another key - lower, mixed, U<->T, "
+        "Sequence-typed, ambiguous, refused - and re-ask every question of the held object, both orders); plus mixed-case and malformed texts. Biopython "
         "(Bio.Data.CodonTable tables 1/11, Bio.Seq translate/complement) answers the bio.* operations, which "
         "are compared with the generated tables and with the reference tables. non-trivial = the call returned a "
         "value (did not raise / had an entry); distinct = distinct operation lines")
@@ -30,7 +32,7 @@ TRUSTED = ["Gen/Tables.lean + Gen/Kernels.lean regenerated from /repo by tools/t
            "Spec/Tables.lean reference tables (NCBI table 1/11, IUPAC) cross-checked against Biopython by the bio.* operations"]
 ASSUMPTIONS = ["codon / alphabet texts are ASCII (str.upper() = per-character ASCII upper-casing)",
                "Python ints are unbounded; % with divisor 3 is floor-mod = Lean Int.emod"]
-MODEL_OPS = {"translate", "syn", "is_stop", "is_strict", "is_canon", "is_start", "aacodons", "complement", "complement2",
+MODEL_OPS = {"hist", "translate", "syn", "is_stop", "is_strict", "is_canon", "is_start", "aacodons", "complement", "complement2",
              "alphabet", "shift", "to_phase", "to_frame", "frame_int", "phase_int", "frame_val", "phase_val",
              "strand_rev", "strand_rel", "strand_sym", "strand_tosym", "strand_int", "strand_val", "strand_lt",
              "biotype", "enum", "bio.std", "bio.complement", "bio.starts", "bio.stops"}
@@ -56,6 +58,45 @@ def biotype_names():
     return list(Biotype.__members__.keys())
 
 
+EXTENDED = ["CTN", "GTN", "TCN", "CCN", "ACN", "GCN", "CGN", "GGN"]
+
+
+def spellings(c, rng):
+    """other spellings of codon text c: same key (case variants, Sequence-typed) and different keys (U<->T folds,
+    ambiguous generalisations, other codons) plus refused constructions"""
+    u2t, t2u = c.replace("U", "T"), c.replace("T", "U")
+    mixed = "".join(ch.lower() if i % 2 else ch for i, ch in enumerate(c))
+    partial = c.replace("T", "U", 1) if c.count("T") > 1 else None
+    out = [c.lower(), mixed, t2u, t2u.lower(), u2t, "seq:" + c, "seq:" + t2u, "seq:" + c.lower(),
+           c[:2] + "N", "N" + c[1:], c[:2], c + "A", c[:2] + "X", c[:2] + "-", "seq:" + c[:2] + "E",
+           rng.choice(["ATG", "TAA", "TGA", "AUG", "UAA", "UGA", "NNN"])]
+    if partial:
+        out.append(partial)
+    return [s for s in out if s and s != c]
+
+
+def hist_cases(run, strict64):
+    rng = run.rng
+    helds = list(strict64) + EXTENDED
+    helds += [c.replace("T", "U") for c in strict64 if "T" in c]          # RNA spelling held first, DNA constructed later
+    helds += [c.replace("T", "U") for c in EXTENDED if "T" in c]
+    helds += [c.lower() for c in ("ATG", "TAA", "CTN")] + ["seq:ATG", "seq:UGA", "seq:tcn", "NNN", "RAY", "YTA"]
+    for h in helds:
+        text = h[4:] if h.startswith("seq:") else h
+        sps = spellings(text.upper() if text.islower() else text, rng)
+        if h.startswith("seq:") or text.islower():
+            sps.append(text.upper())
+        run.count("hist:held")
+        for sp in sps:                       # one interleaved construction per line: minimal failing inputs
+            yield f"hist {h} 1 {sp}"
+        yield f"hist {h} {len(sps)} " + " ".join(sps)            # all of them
+        rev = list(reversed(sps))
+        yield f"hist {h} {len(rev)} " + " ".join(rev)            # … in the opposite order
+        yield f"hist {h} 0"
+    for bad in ("AT", "ATGA", "AXG", "seq:ATE", "at-"):
+        yield f"hist {bad} 1 ATG"
+
+
 def cases(run):
     rng = run.rng
     triplets = ["".join(p) for p in itertools.product(IUPAC, repeat=3)]
@@ -74,6 +115,8 @@ def cases(run):
         yield f"bio.consensus {c}"
     for c in strict64:
         yield f"bio.std {c}"
+    # histories: hold a codon object, construct other spellings, ask the held object again ----------------
+    yield from hist_cases(run, strict64)
     # mixed / lower case and malformed texts
     texts = ["atg", "Atg", "ctn", "cTn", "tga", "AT", "ATGA", "A", "AXG", "A-G", "ATE", "123", "NNNN", "at*", "ZZZ"]
     for _ in range(300 if run.tier == "quick" else 3000):
